@@ -15,3 +15,4 @@ def check(A):
     R.upgrades_rule(A, 'C11')
     R.sid_cookie_rule(A, 'C11')
     R.constructor_rules(A, 'C11')
+    R.jsonp_rule(A, 'C11')
